@@ -473,6 +473,33 @@ pub fn generated_programs(max_len: usize) -> Vec<Program> {
     v
 }
 
+/// The same on a store that holds no catalog yet (create-if-absent race, legacy-format fallback reads).
+pub fn generated_programs_empty_store() -> Vec<Program> {
+    let alphabet: Vec<Op> = vec![
+        Op::Reg(s("a"), 1, 1),
+        Op::Reg(s("b"), 2, 4),
+        Op::Del(s("a")),
+        Op::CompactWith(vec![s("a")], s("t1"), 1, 2),
+        Op::Compact(vec![s("a")], s("b")),
+    ];
+    let mut seqs: Vec<Vec<Op>> = Vec::new();
+    for a in &alphabet {
+        seqs.push(vec![a.clone()]);
+    }
+    for a in &alphabet {
+        for b in &alphabet {
+            seqs.push(vec![a.clone(), b.clone()]);
+        }
+    }
+    let mut v = Vec::new();
+    for i in 0..seqs.len() {
+        for j in i..seqs.len() {
+            v.push(Program { name: format!("gen-empty/{i}x{j}"), initial: vec![], clients: vec![seqs[i].clone(), seqs[j].clone()] });
+        }
+    }
+    v
+}
+
 pub fn factory(prog: Program) -> ScenarioFactory {
     Arc::new(move || Box::new(C02Scenario::new(prog.clone())) as Box<dyn Scenario>)
 }
@@ -517,12 +544,14 @@ pub fn run(tier: &str) -> i32 {
         let progs = generated_programs(max_len);
         let quick_subset = tier != "thorough";
         // quick: 1 op vs 1 op, 1 op vs 2 ops, and every 3rd 2-vs-2 pair; thorough: all pairs
-        let progs: Vec<Program> = progs
+        let mut progs: Vec<Program> = progs
             .into_iter()
             .enumerate()
             .filter(|(k, p)| !quick_subset || p.clients[0].len() == 1 || k % 3 == 0)
             .map(|(_, p)| p)
             .collect();
+        // plus every pair over a 5-operation alphabet on an empty store (quick: every 2nd pair)
+        progs.extend(generated_programs_empty_store().into_iter().enumerate().filter(|(k, _)| !quick_subset || k % 2 == 0).map(|(_, p)| p));
         let t0 = std::time::Instant::now();
         let bounds = Cost { preempt: 1000, ..Cost::ZERO };
         let stats = explore_many(progs.iter().map(|p| factory(p.clone())).collect(), &|_| ExploreConfig {
@@ -547,7 +576,7 @@ pub fn run(tier: &str) -> i32 {
             rep.absorb_explore_compact(&p.name, &serde_json::to_value(p).unwrap(), st, bounds);
         }
         println!(
-            "  C02 generated: {} programs (2 clients x 1..={} ops over 8 operations, all interleavings) executions={} states={} outcomes={} programs-with-several-outcomes={} {:.1}s",
+            "  C02 generated: {} programs (2 clients x 1..={} ops over 8 operations on a populated catalog and over 5 operations on an empty store, all interleavings) executions={} states={} outcomes={} programs-with-several-outcomes={} {:.1}s",
             progs.len(), max_len, ex, stt, outc, multi, t0.elapsed().as_secs_f64()
         );
         let scen = rep.coverage.entry("scenarios".to_string()).or_insert_with(|| json!([]));
